@@ -407,7 +407,9 @@ def s(self, tree):
                         counts[k] = counts.get(k, 0) + 1
             except (ValueError, OverflowError, ZeroDivisionError):
                 continue
-            if len(counts) != 2 or any(c != 1 for c in counts.values()):
+            from .. import termflow as _tf
+
+            if len(counts) != _tf.K_ELEMS or any(c != 1 for c in counts.values()):
                 bad = counts
                 break
         ctx.check(bad is None and bool(adds), "R2", "_get_constrained_path adds every data point of the pass exactly once (outlier set / mapped clone / new clone)", f.where(), "in some scenario the data points of the pass are added %s times" % (sorted(bad.values()) if bad else "0"), construct=f.qualname, stmt="one edit per data point")
